@@ -31,6 +31,8 @@ class LoopFrame(StackFrame):
         # parameters inside the loop body.
         self.params = parent.params
         self._loop_var = {}
+        # Height of the evaluation stack when the loop was entered.
+        self.eval_height = 0
 
     def get_loop_var(self, index):
         return self._loop_var.get(index, None)
@@ -110,12 +112,21 @@ class CallStack:
     def pop_frame(self) -> None:
         self._top = self._top.parent
 
-    def enter_loop(self) -> None:
+    def enter_loop(self, eval_height=0) -> None:
         self._top = LoopFrame(self._top)
+        self._top.eval_height = eval_height
 
-    def exit_loop(self) -> None:
+    def exit_loop(self):
+        # Returns the evaluation stack height recorded when the loop started.
+        eval_height = getattr(self._top, 'eval_height', None)
         self._top = self._top.parent
+        return eval_height
 
-    def unwind_loops(self) -> None:
+    def unwind_loops(self):
+        # Returns the evaluation stack height recorded by the outermost loop
+        # that was left, or None if there was no loop to leave.
+        eval_height = None
         while isinstance(self._top, LoopFrame):
+            eval_height = self._top.eval_height
             self._top = self._top.parent
+        return eval_height
